@@ -15,6 +15,7 @@ import (
 	"sort"
 	"strconv"
 	"strings"
+	"sync"
 
 	"perkeep.org/pkg/blob"
 	"perkeep.org/pkg/blobserver"
@@ -344,6 +345,23 @@ type blobT struct {
 	key string
 	val []byte
 }
+
+// siblings: four blobs whose sha224 refs share their first four hex digits – the files/localdisk
+// backend keeps them in ONE leaf directory (sha224/ab/cd/), so page limits end in the middle of a
+// directory; found once by search.
+var siblings = func() []blobT {
+	byPrefix := map[string][]blobT{}
+	for i := 0; ; i++ {
+		v := []byte(fmt.Sprintf("c01 sibling blob %d", i))
+		sum := sha256.Sum224(v)
+		k := "sha224-" + hex.EncodeToString(sum[:])
+		p := k[7:11]
+		byPrefix[p] = append(byPrefix[p], blobT{k, v})
+		if len(byPrefix[p]) == 4 {
+			return byPrefix[p]
+		}
+	}
+}()
 
 func mkBlob(r *hk.Rand, kind int) blobT {
 	var v []byte
@@ -765,6 +783,9 @@ func (c *caseRun) paging(limit int) {
 		if len(f) == 1 {
 			break
 		}
+		if len(f)-1 > limit {
+			c.fail("enumerate-exceeds-limit", fmt.Sprintf("enumerate after %q with limit %d", after, limit), fmt.Sprint("at most ", limit, " refs"), fmt.Sprint(len(f)-1, " refs"))
+		}
 		for _, p := range f[1:] {
 			kh, _, _ := strings.Cut(p, ":")
 			kb, _ := hk.UnHex(kh)
@@ -815,9 +836,16 @@ func Run(r *hk.Run) {
 		for i := 0; i < nb; i++ {
 			c.pool = append(c.pool, mkBlob(rnd, rnd.Intn(6)))
 		}
+		withSiblings := rnd.Chance(50)
+		if withSiblings {
+			c.pool = append(c.pool, siblings[:2+rnd.Intn(3)]...)
+		}
 		if out := c.op("cfg " + tok + " // " + treeTokens(tree)); out != "ok" {
 			r.Note("cannot build " + label + ": " + out)
 			continue
+		}
+		if withSiblings {
+			r.Hit("pool:blobs-sharing-a-leaf-directory")
 		}
 		r.Hit("root:" + KindToken(tree))
 		CountFans(r, tree, "root")
@@ -835,6 +863,16 @@ func Run(r *hk.Run) {
 		n := nOps/2 + rnd.Intn(nOps)
 		for i := 0; i < n; i++ {
 			c.step(rnd)
+		}
+		if withSiblings {
+			// all of them present for the final paging: limits 1..3 end inside their directory
+			for _, b := range c.pool {
+				if _, ok := c.ref[b.key]; !ok && strings.HasPrefix(b.key, siblings[0].key[:11]) {
+					if out := c.op("recv " + hk.Hex([]byte(b.key)) + " " + hk.Hex(b.val)); out == fmt.Sprintf("sized %d", len(b.val)) {
+						c.ref[b.key] = b.val
+					}
+				}
+			}
 		}
 		for _, l := range []int{1, 2 + rnd.Intn(3), 1000} {
 			c.paging(l)
@@ -856,10 +894,81 @@ func Run(r *hk.Run) {
 		}
 		c.ex([]string{"cfg"}) // releases the temp dir (bad-op answer ignored)
 	}
+	leafDirCases(r)
 	oracleOnly(r)
 	bigBlobs(r)
 	packedFiles(r)
 	probes(r)
+}
+
+// leafDirCases: several blobs in ONE leaf directory of the files/localdisk backend (refs sharing their first
+// four hex digits), alone and under every combinator that passes cursor and limit down: enumerate from
+// every cursor (empty, each key, each key cut short or extended) with every limit 1..n+1 – a page may end
+// anywhere inside the directory – compared with the model and the reference map, never more than the limit.
+func leafDirCases(r *hk.Run) {
+	rnd := r.R
+	specs := []string{"localdisk", "ns localdisk", "shard localdisk mem", "overlay mem localdisk", "overlay localdisk mem",
+		"proxy:100000 localdisk memcache:100000", "replica localdisk mem", "cond mem localdisk"}
+	for _, spec := range specs {
+		n, _, ok := ParseTree(strings.Fields(spec))
+		if !ok {
+			r.Note("bad leaf-dir spec " + spec)
+			continue
+		}
+		tok, _ := n.ModelToken()
+		r.Case(n.String() + "/leafdir")
+		c := &caseRun{r: r, ex: NewExec(), ref: map[string][]byte{}, label: n.String() + "/leafdir", shape: n.Shape(), removed: map[string]bool{},
+			where: map[string]map[int]bool{}}
+		if out := c.op("cfg " + tok + " // " + spec); out != "ok" {
+			r.Note("cannot build " + spec + ": " + out)
+			continue
+		}
+		blobs := append([]blobT{}, siblings...)
+		for i := 0; i < 3; i++ {
+			blobs = append(blobs, mkBlob(rnd, 2))
+		}
+		for _, b := range blobs {
+			if n.Kind == "overlay" && n.Kids[0].Kind == "localdisk" {
+				if out := c.op("seedlower " + hk.Hex([]byte(b.key)) + " " + hk.Hex(b.val)); out == "ok" {
+					c.ref[b.key] = b.val
+				}
+				continue
+			}
+			if out := c.op("recv " + hk.Hex([]byte(b.key)) + " " + hk.Hex(b.val)); out == fmt.Sprintf("sized %d", len(b.val)) {
+				c.ref[b.key] = b.val
+			}
+		}
+		r.Hit("leafdir:" + n.Kind)
+		keys := c.sortedKeys()
+		cursors := []string{"", "sha224-", siblings[0].key[:11], siblings[0].key[:10]}
+		for _, k := range keys {
+			cursors = append(cursors, k, k[:len(k)-1], k+"0")
+		}
+		for _, cur := range cursors {
+			for limit := 1; limit <= len(keys)+1; limit++ {
+				out := c.op("enum " + hk.Hex([]byte(cur)) + " " + strconv.Itoa(limit))
+				var want []string
+				for _, k := range keys {
+					if k > cur && len(want) < limit {
+						want = append(want, hk.Hex([]byte(k))+":"+strconv.Itoa(len(c.ref[k])))
+					}
+				}
+				w := strings.TrimSpace("refs " + strings.Join(want, " "))
+				if out != w {
+					sig := "enumerate-mismatch"
+					if len(strings.Fields(out))-1 > limit {
+						sig = "enumerate-exceeds-limit"
+					}
+					c.fail(sig, fmt.Sprintf("enumerate after %q with limit %d over blobs sharing a leaf directory", cur, limit), trunc(w), trunc(out))
+				}
+			}
+		}
+		for _, l := range []int{1, 2, 3} {
+			c.paging(l)
+		}
+		r.Distinct("leafdir:" + c.shape)
+		c.ex([]string{"cfg"})
+	}
 }
 
 // oracleOnly runs the same histories on backends that have no Lean model behind the C01 driver
@@ -976,13 +1085,18 @@ func bigBlobs(r *hk.Run) {
 
 // fileWriter lets schema.WriteFileFromReader upload through the case's `recv` op, so that every chunk,
 // bytes-schema and file-schema blob of the file is in the reference map.
-type fileWriter struct{ c *caseRun }
+type fileWriter struct {
+	c  *caseRun
+	mu *sync.Mutex // the schema writer uploads chunks from several goroutines
+}
 
 func (w fileWriter) ReceiveBlob(ctx context.Context, br blob.Ref, src io.Reader) (blob.SizedRef, error) {
 	v, err := io.ReadAll(src)
 	if err != nil {
 		return blob.SizedRef{}, err
 	}
+	w.mu.Lock()
+	defer w.mu.Unlock()
 	c := w.c
 	if out := c.op("recv " + hk.Hex([]byte(br.String())) + " " + hk.Hex(v)); out != fmt.Sprintf("sized %d", len(v)) {
 		c.r.Fail("packed-file-receive", c.label+": receive of a blob of a file being uploaded", fmt.Sprintf("sized %d", len(v)), trunc(out), nil)
@@ -1040,7 +1154,7 @@ func packedFiles(r *hk.Run) {
 		for k := range c.ref {
 			before[k] = true
 		}
-		if _, err := schema.WriteFileFromReader(context.Background(), fileWriter{c}, fmt.Sprintf("f%d.bin", si), bytes.NewReader(data)); err != nil {
+		if _, err := schema.WriteFileFromReader(context.Background(), fileWriter{c, &sync.Mutex{}}, fmt.Sprintf("f%d.bin", si), bytes.NewReader(data)); err != nil {
 			r.Note("packed-file upload failed on " + spec + ": " + err.Error())
 			c.ex([]string{"cfg"})
 			continue
